@@ -153,7 +153,8 @@ EolEnd(p, c) ==
 (* actions (C04): kind of the action a node has in action family fam       *)
 Pow16(f) == IF f = 0 THEN 1 ELSE IF f = 1 THEN 16 ELSE IF f = 2 THEN 256 ELSE IF f = 3 THEN 4096
             ELSE IF f = 4 THEN 65536 ELSE IF f = 5 THEN 1048576 ELSE IF f = 6 THEN 16777216 ELSE 268435456
-AKind(n, fam) == IF fam = 0 THEN 0 ELSE (Nodes[n].ak \div Pow16(fam)) % 16
+\* (family 8: control_action, no apply / apply0)
+AKind(n, fam) == IF fam = 0 \/ fam >= 8 THEN 0 ELSE (Nodes[n].ak \div Pow16(fam)) % 16
 Visible(n, c) == c.vis = 1 \/ Nodes[n].en = 1
 
 \* effect of the node's own action on the outcome of its body
